@@ -1758,7 +1758,11 @@ class Compiler:
 
             self._current_slot.append(slot.name)
 
-            body = self.visit_Context(slot)
+            # The conversion helpers look up the translation settings
+            # in the enclosing function; the filler has its own.
+            body = emit_func_convert("__convert") + \
+                emit_func_convert_and_escape("__quote") + \
+                self.visit_Context(slot)
 
             assert self._current_slot.pop() == slot.name
 
